@@ -83,7 +83,13 @@ CHECKS = {
          "c07",
          "Every node position and MMR size up to the bound (65 536 quick / 1 048 576 thorough nodes), every (size,pos) of family_branch, every leaf count up to 2 048 / 16 384 (push, root, peaks, validate, read-only views), every leaf of every MMR up to 96 / 320 leaves x every single corruption of element, position and path, all executed on the real code and compared with a forest built by definition with its own blake2b hashing. Exhaustive within these bounds; nothing sampled.",
          "Trusts blake2-rfc; positions >= 2^63 outside the domain; proof.mmr_size not mutated (excluded by the property).",
-         "DESIGN.md §4 C07"), "C15": ("model_checking",
+         "DESIGN.md §4 C07"), "C14": ("model_checking",
+         "stateless exploration (level-by-level BFS with replay of operation prefixes on a fresh chain copy + fresh TransactionPool, memoised on chain fingerprint + ordered pool contents) with joint-validity invariants and a mined-block-accepted-by-twin oracle on every state",
+         "c14",
+         "Universe: chain b1..b8 with a fork f6..f11, ten transactions (independent, conflicting, 0-conf chained, aggregate of pooled ones, below minimum fee, over weight, bad sum, immature coinbase spend). Alphabet: submit(Ti, stem|fluff), connect a block carrying {} / {T1} / {T3} / {T1,T4} followed by the node's reconcile glue, mine the pool's own mineable set (real PoW, as mine_block.rs), fork block (reorg + reconcile_reorg_cache), fork header (header head moves alone); a capacity part (max_pool_size 2) reaches eviction through add_to_pool. Every state: txpool entries (and stempool on top) apply together on the head per a reference ledger, aggregate validates and Chain::validate_tx accepts it, every entry pays the minimum fee / is within weight / validates, T6 T7 T8 never present, the mineable set assembles into a block within the weight limit that a twin chain accepts. Part c13-pool: pool admission of coinbase spends and height-locked kernels one below / at / above their thresholds at every state of a two-fork universe including header-only states (property C13's pool clauses, keys c13:*).",
+         "Depth 3 (quick) / 5 (thorough, capped by time while expanding depth 5; the cap is reported). One genuine defect recorded as known finding (maturity cutoff read through the header MMR when the header head is on another fork); two repaired.",
+         "DESIGN.md §4 C14"),
+ "C15": ("model_checking",
          "explicit-state exploration (DFS over directory snapshots) of the real TxHashSet / Extension / BitmapAccumulator through the extension seam with synthetic multi-chunk blocks, against a from-scratch accumulator and an independent chunk-MMR reference",
          "c15",
          "Histories up to depth 3 (quick) / 4 (thorough) over {apply a block with k new outputs (600, 1024 / 1, 600, 1023, 1025) and a spend selection (none, first/last of chunk 0, first of chunk 1, every other leaf of the oldest chunk, all of the last partial chunk, all of the oldest chunk, all of chunk 1) on the head or on any ancestor of the head (rewind across chunk boundaries and re-apply), a rolled-back unit, reopen}: after every step and after reopening, the committed bitmap root must equal an accumulator initialised from scratch over the reference unspent set and an independently hashed chunk MMR, and the accumulator's bit set must equal the reference unspent set. Output counts span up to 4 chunks.",
